@@ -61,6 +61,10 @@ def extra_workers(ch: Choices, info: dict[str, Any]) -> list[Any]:
         return []
     n = 1 + ch.pick("c04.ndup", 2)
     info["duplicate_startstage"] = n
+    # "late": the duplicate arrives while J is claimed but not planned yet (RUNNING, no task started) - a redelivered
+    # StartStage or a sweep's StartStage can land in that window as well as before the claim
+    late = bool(ch.pick("c04.duplate", 2))
+    info["duplicate_late"] = late
 
     def mk(world: Any) -> Any:
         def body(wk: Any) -> None:
@@ -73,7 +77,19 @@ def extra_workers(ch: Choices, info: dict[str, Any]) -> list[Any]:
                 by = {r["ref_id"]: r for r in rows}
                 j = by.get("J")
                 ups = [r for k, r in by.items() if k.startswith("B")]
-                if j is None or j["status"] != "NOT_STARTED":
+                if late:
+                    if j is not None and j["status"] == "RUNNING":
+                        started = world.hquery("SELECT count(*) AS c FROM task_executions WHERE stage_id = ? AND status != 'NOT_STARTED'",
+                                               (j["id"],))[0]["c"]
+                        if not started:
+                            with world.as_client("peer-startstage"):
+                                for _i in range(n):
+                                    world.queue.push(StartStage(execution_type="PIPELINE", execution_id=j["execution_id"], stage_id=j["id"]))
+                            world.fault("duplicate_startstage_late", n)
+                        return
+                    if j is not None and j["status"] not in ("NOT_STARTED", "RUNNING"):
+                        return
+                elif j is None or j["status"] != "NOT_STARTED":
                     if j is not None and j["status"] != "NOT_STARTED":
                         return
                 elif ups and sum(1 for r in ups if r["status"] in ("SUCCEEDED", "FAILED_CONTINUE", "SKIPPED")) >= 1:
@@ -149,7 +165,14 @@ def judge(prog: Program, run: dict[str, Any], info: dict[str, Any]) -> list[dict
     return one_violation("C04", problems, h)
 
 
-CHECK = WCheck("C04", {}, judge, make_program=make_program, extra_workers=extra_workers,
+def setup(w: Any, sched: Any, ch: Choices, info: dict[str, Any]) -> None:
+    # the claim this check is about is the join stage's: branches (and the root) are claimed before it
+    prog = w.program
+    n_before = sum(1 for r in prog.order if r == "R" or r.startswith("B"))
+    sched.stall_focus = [n_before + 1]
+
+
+CHECK = WCheck("C04", {}, judge, make_program=make_program, extra_workers=extra_workers, setup=setup,
                nontrivial=lambda run, info: run["stats"]["preemptions"] > 0)
 run_one = CHECK.run_one
 replay_one = CHECK.replay_one
